@@ -12,7 +12,7 @@ MCInit == {[a |-> NoObj, s |-> [kind |-> "shard", i |-> i]] : i \in 0..(NShards 
 HashPL(c) == (c.X[1][1] + 3 * c.Y[1][1] + 5 * c.X[Len(c.X)][1] + 7 * c.Y[Len(c.Y)][1] + 11 * Len(c.X)) % NShards
 Mine(h, c) == HashPL(c) = h["s"].i
 
-WeightSeqs == SeqsUpTo({One, Two, Half}, 3) \ {<<>>}
+WeightSeqs == SeqsUpTo({One, Two, Half, Q(1, 3), Q(2, 7)}, 3) \ {<<>>}
 
 Fns == {"nodes_closed", "nodes_open", "nodes_cheby", "nodes_gauss", "w_closed", "w_open", "w_cheby", "w_gauss"}
 
